@@ -226,6 +226,8 @@ class Script:
         if o == 'child_pid':
             w = self.obj(op['var'])
             return {'ret': getattr(getattr(w, '_child', None), 'pid', None)}
+        if o.startswith('pool_'):
+            return self.pool_op(op)
         if o == 'poll_wait':
             # the parent keeps asking until the worker is dead (each single call must come back)
             w = self.obj(op['var'])
@@ -483,6 +485,96 @@ class Script:
         if o == 'tagged':
             return {'ret': tagged_pids(self.run_id, exclude=op.get('exclude', ()))}
         raise ValueError('unknown op %r' % (o,))
+
+    def pool_op(self, op):
+        from pwv import targets
+        from pyworkers.pool import Pool, PoolError
+        from pyworkers.worker import WorkerType
+        o = op['op']
+        if o == 'pool_create':
+            class FlakyPool(Pool):
+                fail_next = False
+
+                def handle_new_worker(self, worker):
+                    if self.fail_next:
+                        self.fail_next = False
+                        raise RuntimeError('registration fails')
+            kw = {'close_timeout': op.get('close_timeout', 0.3), 'retry': op.get('retry', True)}
+            p = FlakyPool(getattr(targets, op.get('target', 'slow_echo')), kwargs={'delay': 0.01}, **kw)
+            if 'force' in op:
+                p.force = op['force']
+            self.vars[op['var']] = p
+            self.pool_workers = getattr(self, 'pool_workers', {})
+            self.pool_workers[op['var']] = []
+            return {'ret': 'created'}
+        p = self.obj(op['pool'])
+        ws = self.pool_workers[op['pool']]
+        if o == 'pool_add':
+            kind = op['kind']
+            wt = {'T': WorkerType.THREAD, 'P': WorkerType.PROCESS, 'R': WorkerType.REMOTE}[kind]
+            kw = {}
+            if kind == 'R':
+                kw['host'] = self.d.get_server().addr
+            if op.get('fail'):
+                p.fail_next = True
+                before = set(pid for pid, _ in tagged_pids(self.run_id))
+            st, val = self.raw(lambda: p.add_worker(wt, **kw), 20)
+            if st == 'ret':
+                ws.append((kind, val, val.pid))
+                return {'ret': 'added'}
+            if st == 'exc' and op.get('fail'):
+                time.sleep(0.3)
+                after = [(pid, c) for pid, c in tagged_pids(self.run_id) if pid not in before and 'resource_tracker' not in c]
+                return {'exc': val, 'new_processes_left': after}
+            return {st: val}
+        if o == 'pool_run':
+            def f():
+                try:
+                    r = p.run(iter(list(op['inputs'])), worker_extra_pending_inputs=op.get('extra', 0))
+                    return ['ret', sorted(r, key=repr) if r is not None else None]
+                except PoolError as e:
+                    return ['PoolError', sorted(e.partial_results or [], key=repr)]
+            return self.call(f, op.get('timeout', 30))
+        if o == 'pool_restart':
+            r = self.call(lambda: p.restart_workers(timeout=1), 40)
+            if 'ret' in r:
+                self.pool_workers[op['pool']] = [(k, w, w.pid) for (k, w, _) in ws]
+            return r
+        if o == 'pool_kill':
+            k, w, pid = ws[op['i']]
+            try:
+                os.kill(w.pid, signal.SIGKILL)
+            except ProcessLookupError:
+                pass
+            dl = time.time() + 3
+            while time.time() < dl and not pid_gone(w.pid):
+                time.sleep(0.01)
+            time.sleep(0.1)
+            return {'ret': True}
+        if o == 'pool_stuck':
+            k, w, pid = ws[op['i']]
+            return self.call(lambda: w.enqueue('STUBBORN'), 5)
+        if o == 'pool_end':
+            how = op['how']
+            if how == 'exit':
+                f = lambda: p.__exit__(None, None, None)  # noqa
+            elif how == 'exc-exit':
+                e = KeyError('body fails')
+                f = lambda: p.__exit__(KeyError, e, None)  # noqa
+            elif how == 'close':
+                f = lambda: p.close()  # noqa
+            else:
+                f = lambda: p.terminate()  # noqa
+            return self.call(f, op.get('timeout', 40))
+        if o == 'pool_state':
+            out = []
+            for k, w, pid in ws:
+                alive = _guard(w.is_alive)
+                gone = True if k == 'T' else pid_gone(w.pid)
+                # every pid this slot ever had
+                out.append([k, alive, gone, pid_gone(pid) if k != 'T' else True])
+            return {'ret': out}
+        raise ValueError(o)
 
     def _probe_once(self):
         from pyworkers.remote import RemoteWorker
